@@ -252,7 +252,7 @@ class CodespeedReporter(Reporter):
         return result
 
     def _send_payload(self, payload):
-        with urlopen(self._cfg.url, payload) as socket:
+        with urlopen(self._cfg.url, payload.encode('utf-8')) as socket:
             response = socket.read()
             return response
 
